@@ -27,7 +27,8 @@ EXPLANATION = (
     ' Fourth round: the file-name dispatch of the readers (R15.7), the Jigg spelling of one-valued features (R15.8), normalize_tokens works on a copy (R15.9).'
     ' Fifth round: token fields written through `for k, v in token.items(): set(k, f(v))` are rewritten fields.'
     " Sixth and seventh round: exactly one span flagged as root (R15.3 one-root-flag), categories read from the node's own span, no XML element tested for truth, no container shared between yielded results (R15.2)."
-    " Eighth round: printers leave the derivation's tokens alone (R15.2); every sentence, failed or not, is numbered (R15.1).")
+    " Eighth round: printers leave the derivation's tokens alone (R15.2); every sentence, failed or not, is numbered (R15.1)."
+    ' Ninth and tenth round: normalize_tokens normalises what is in the attribute now, not a copy read before the write (R15.5); the bare-base rule of the Jigg categories (R15.8).')
 TRUSTED = ['CPython ast', 'sa/pysym.py path walker', 'a line-based scan of the YAML templates for `rule:` values']
 
 PX = 'depccg/printer/xml.py'
